@@ -137,6 +137,11 @@ theorem greg_est_core (y d q : Int) (hy : -9998 ≤ y) (hy2 : y ≤ 9999)
 
 theorem greg_wf : WF Greg.cal where
   dom_lo := by decide
+  search_lo := by decide
+  recur_lo := fun y h1 h2 => by
+    have a : (-9998 : Int) ≤ y := h1
+    have b : y < (-9998 : Int) := h2
+    omega
   dom_hi := by decide
   year_order := by decide
   recur := fun y _ _ => greg_recur y
@@ -178,7 +183,7 @@ theorem greg_wf : WF Greg.cal where
     intro y m1 m2 _ _ h1 h2 h3 h4 h5
     exact (gj_months (Greg.isLeap y)).2.2.2 m1 m2 h1 h2 h3 h4 h5
   month_key_inj := fun _ _ _ _ _ _ _ _ _ h => h
-  plain_key := fun _ _ _ => rfl
+  plain_key := fun _ _ _ _ _ _ _ => rfl
 
 /-! ## Julian -/
 
@@ -212,6 +217,11 @@ theorem jul_est_core (y d q : Int) (hy : -9997 ≤ y) (hy2 : y ≤ 9998)
 
 theorem jul_wf : WF Jul.cal where
   dom_lo := by decide
+  search_lo := by decide
+  recur_lo := fun y h1 h2 => by
+    have a : (-9997 : Int) ≤ y := h1
+    have b : y < (-9997 : Int) := h2
+    omega
   dom_hi := by decide
   year_order := by decide
   recur := fun y _ _ => jul_recur y
@@ -251,7 +261,7 @@ theorem jul_wf : WF Jul.cal where
     intro y m1 m2 _ _ h1 h2 h3 h4 h5
     exact (gj_months (Jul.isLeap y)).2.2.2 m1 m2 h1 h2 h3 h4 h5
   month_key_inj := fun _ _ _ _ _ _ _ _ _ h => h
-  plain_key := fun _ _ _ => rfl
+  plain_key := fun _ _ _ _ _ _ _ => rfl
 
 /-! ## Coptic -/
 
@@ -312,6 +322,11 @@ theorem copt_unsplit (leap : Bool) (m dd : Int) (h1 : 1 ≤ m) (h2 : m ≤ 13) (
 
 theorem copt_wf : WF Copt.cal where
   dom_lo := by decide
+  search_lo := by decide
+  recur_lo := fun y h1 h2 => by
+    have a : (1 : Int) ≤ y := h1
+    have b : y < (1 : Int) := h2
+    omega
   dom_hi := by decide
   year_order := by decide
   recur := fun y _ _ => copt_recur y
@@ -355,6 +370,6 @@ theorem copt_wf : WF Copt.cal where
     show (m1 - 1) * 30 + (if m1 ≠ 13 then 30 else if Copt.isLeap y then 6 else 5) ≤ (m2 - 1) * 30
     rw [if_pos (by omega)]; omega
   month_key_inj := fun _ _ _ _ _ _ _ _ _ h => h
-  plain_key := fun _ _ _ => rfl
+  plain_key := fun _ _ _ _ _ _ _ => rfl
 
 end Pyoda.C01
